@@ -1,6 +1,7 @@
 import XmppModel.Prelude.Hex
 import XmppModel.Model.Close
 import XmppModel.Model.CloseEnv
+import XmppModel.Model.CloseFraming
 /-! Driver for C10 (see harness/c10 for the line protocol).
 
     hist <serve 0|1> <op,op,…>        -> <res,res,…> <wire items> <outClosed><inClosed> <serve result>
@@ -11,6 +12,7 @@ import XmppModel.Model.CloseEnv
     sched <kind,kind,…> <i,i,…>       -> <wire events> <per goroutine outcome>
     tee <k|-> <op,…>                      -> <res,…> <connection writes> <outClosed> <closing-tag writes>   (TeeOut fails from op k on)
     wdl <op,…>                            -> <res,…> <wire items> <outClosed> wd=<z|p> setters=clean        (tNa/tNx/tNk: context fate)
+    fr <tcp|ws> <init|recv> <op,…>        -> <res,…> <el|ctcp|cws,…> <outClosed><inClosed> <serve result>     (p/q: peer sends </stream:stream> / <close/>)
     held <pre|handler> <dp|dz|d>          -> serve=deadline held=ok fresh=closedin bits=11                  (reader held across Serve's end)
 
 ops: c close; t1…t6 the transmit entry points; r read; m/y peer stanza (handler silent /
@@ -106,8 +108,24 @@ def parseWdOp (s : String) : Option WdHist.Op :=
 def showWdRes : WdHist.Res → String
   | .ok => "ok" | .closedOut => "closedout" | .failed => "failed"
 
+def parseFrOp (s : String) : Option Framing.Op :=
+  match s with
+  | "p" => some (.peerEnds .tcp)
+  | "q" => some (.peerEnds .ws)
+  | "h" => some (.base .handlerErr)
+  | o => (parseOp o).map .base
+
+def showTag : Framing.Tag → String
+  | .el => "el" | .close .tcp => "ctcp" | .close .ws => "cws"
+
 def handle (args : List String) : Option String :=
   match args with
+  | ["fr", fr, _role, ops] => do
+    let f ← match fr with | "tcp" => some Framing.Fr.tcp | "ws" => some Framing.Fr.ws | _ => none
+    let l ← mapM? parseFrOp (splitList ops)
+    let r := Framing.run true f (Hist.init true) l
+    let s := r.1
+    pure s!"{joinList (r.2.map showRes)} {joinList ((Framing.wire true f s).map showTag)} {showBool s.outClosed}{showBool s.inClosed} {showRet s.serve}"
   | ["tee", k, ops] => do
     let f ← if k == "-" then some none else k.toNat?.map some
     let l ← mapM? parseTeeOp (splitList ops)
